@@ -176,3 +176,43 @@ Theorem C01_history_example_apply :
 Proof. exact history_example_apply. Qed.
 Print Assumptions C01_history_example_apply.
 
+
+(* ---- the same along MULTI-VERSION histories under the identity converter (Proofs/MultiVersion.v,
+   corollaries of the transparency theorem of C20): every operation of the history at its own
+   version label (one schema behind every label, any visiting order of the versions), the
+   last operation at an arbitrary label; updates inside the history submit neither empty
+   lists nor duplicate members (the restriction of Proofs/Transparent.v). ---- *)
+From Coq Require Import List ZArith String Bool Arith Lia Permutation.
+From SMD Require Import Model.Value Model.Order Model.PathElem Model.PathSet Model.Schema Model.Walk
+  Model.Validate Model.FieldSet Model.Remove Model.Merge Model.Compare Model.Matcher Model.Reconcile
+  Model.Updater
+  Spec.PathsAsSets Spec.RefValid Spec.Resolve Spec.Agree Spec.RefDiff Spec.Examples
+  Proofs.OrderLaws Proofs.PathSetLaws Proofs.SchemaOk Proofs.FieldSetBase Proofs.FieldSetPaths
+  Proofs.FieldSetWf Proofs.FieldSetLaws Proofs.RemoveAbsent Proofs.RemoveWf Proofs.ResolveLaws
+  Proofs.UpdaterLaws Proofs.UpdaterLaws2 Proofs.MergeLaws Proofs.MergeAgree
+  Proofs.RemoveFrame Proofs.EnLaws Proofs.NodeSet Proofs.KeyFields Proofs.VeqbResolve
+  Proofs.SetCheckers Proofs.ApplyEffect Proofs.Visible Proofs.ApplyInv Proofs.History
+  Proofs.TransparentPrune Proofs.TransparentCore Proofs.TransparentStep Proofs.Transparent
+  Proofs.Reapply Proofs.ConflictsApply Proofs.NoOtherFailure Proofs.RecordsHistory
+  Proofs.MultiVersionBase.
+From SMD Require Proofs.ApplyPrune.
+From SMD Require Import Proofs.MultiVersion.
+Theorem C01_along_multi_version_histories :
+  forall (c : config) (R : typeref -> Prop) (ver : string) (ops : list vhop)
+           (v mgr : string) (cfg : value) (force : bool) (o : option tv) 
+           (mf' : managed),
+         setting_ok c R ver ->
+         one_schema c ver ->
+         order_perm c ->
+         Forall (vop_ok c ver) ops ->
+         op_ok c ver (HApply mgr cfg force) ->
+         apply_op c (fst (vrun c ver ops)) (v, cfg) v (snd (vrun c ver ops)) mgr force =
+         UOk (o, mf') ->
+         agrees (schema_of c v) (tr_of c v) cfg
+           match o with
+           | Some t => snd t
+           | None => snd (fst (vrun c ver ops))
+           end = true.
+Proof. exact mv_apply_takes_effect. Qed.
+Print Assumptions C01_along_multi_version_histories.
+
